@@ -1,12 +1,27 @@
 import os, subprocess
 
+
 def pre_run(pid, tier, verif, sh, env, logs):
+    """Steps a property needs before its harnesses are built."""
+    if pid == "C16":
+        # oracle tables from the live kernel / libc (DESIGN 2.4): default
+        # dispositions and the platform's signal names
+        os.makedirs(logs, exist_ok=True)
+        rc, to = sh("python3 %s/tools/gen_signal_tables.py" % verif, os.path.join(logs, "gen_signal_tables.log"), 120, verif)
+        return 0 if rc == 0 and not to else 1
     return None
 
+
 def setup(verif, codegen, sh, env, logs):
-    ok, log = codegen("kani", "kani", "")
-    if not ok:
-        print("setup: harness workspace failed to build, see", log)
-        return 1
-    print("setup: ok")
-    return 0
+    """Offline pre-build of the harness workspaces (slot 0 of each)."""
+    os.makedirs(logs, exist_ok=True)
+    bad = 0
+    for crate, guard, flags in (("kani", True, ""), ("kani17", False, "-Z c-ffi --c-lib /repo/src/low_level/extract.c")):
+        log = os.path.join(logs, "setup.%s.log" % crate)
+        cmd = "cargo kani -Z stubbing %s --target-dir %s/.target/%s-0 --only-codegen" % (flags, verif, crate)
+        rc, to = sh(cmd, log, 1800, os.path.join(verif, crate), guard)
+        if rc != 0 or to:
+            print("setup: %s failed to build, see %s" % (crate, log))
+            bad += 1
+    print("setup: ok" if not bad else "setup: FAILED")
+    return 1 if bad else 0
